@@ -311,8 +311,11 @@ PROGRAM_SETS = {
         [["encrypt"], ["header_md"], ["keygen"]],
         [["encrypt"], ["encrypt"]],
         [["encrypt", "header_md"], ["encrypt"]],
+        [["decaps_empty", "encaps"], ["encaps", "encrypt"]],
     ],
     "thorough": [
+        [["decaps_empty", "encaps"], ["encaps", "encrypt"]],
+        [["decaps_empty"], ["header_md"], ["decaps"]],
         [["encrypt", "encaps"], ["header_md", "keygen"]],
         [["encaps", "decaps"], ["refresh", "encrypt"]],
         [["header_md", "header_md"], ["encrypt", "decaps"]],
